@@ -309,6 +309,7 @@ type Interface struct {
 	DocLines  []string
 	Methods   []Method
 	NoDoc     bool
+	Embeds    []Method // methods reaching the interface through an embedded, unexported interface
 }
 
 // Case is a generated module.
@@ -343,6 +344,7 @@ type Options struct {
 	NoUnsupportedRe bool
 	WellFormed      bool // only notations that are valid and name functions of an acceptable shape
 	ErrorBias       bool // prefer error results, error-returning converters and getters (C07)
+	Embedding       float64 // probability that a converter interface embeds another interface
 }
 
 // DefaultOptions is the general-purpose mix.
@@ -570,7 +572,8 @@ func (g *genState) genMethod(idx int) Method {
 			m.Notations = append(m.Notations, ":skip "+path)
 			m.Features = append(m.Features, "skip")
 		case 1:
-			m.Notations = append(m.Notations, ":skip /^"+path[:1]+"/")
+			pats := []string{"/^" + path[:1] + "/", "/idden$/", "/\\.h/", "/(?i)" + strings.ToLower(path) + "/", "/^" + path + "\\./", "/unexp/", "/\\.y$/"}
+			m.Notations = append(m.Notations, ":skip "+g.pick(pats))
 			m.Features = append(m.Features, "skip-re")
 		case 2:
 			srcs := []string{"SpareInt", "SpareStr", "Calc()", "Risky()", "Nest.A", "NestV.B", "Who.Name()", "Who.Nick", "WhoP.Age()", "NestV.L.W", "Nope", "Who.secret()", "PtrCalc()", "WithArg()", "NestV.C.String()", "Who.Score()"}
@@ -824,6 +827,10 @@ func Generate(seed int64, index int, opt Options) *Case {
 			mi++
 			it.Methods = append(it.Methods, g.genMethod(mi))
 		}
+		if rng.Float64() < opt.Embedding {
+			it.Embeds = []Method{{Name: fmt.Sprintf("Emb%dConv", i), SrcType: "Leaf", DstType: "Leaf2", SrcPtr: true, DstPtr: true}}
+			g.feat("embedded-interface")
+		}
 		c.Interfaces = append(c.Interfaces, it)
 	}
 	if opt.Malformed > 0 {
@@ -915,6 +922,9 @@ func renderSetup(rng *rand.Rand, c *Case, opt Options) string {
 			c.Features["go-generate"]++
 		}
 		fmt.Fprintf(&sb, "type %s interface {\n", it.Name)
+		if len(it.Embeds) > 0 {
+			fmt.Fprintf(&sb, "\temb%s\n", it.Name)
+		}
 		for _, m := range it.Methods {
 			for _, l := range m.DocLines {
 				sb.WriteString("\t// " + l + "\n")
@@ -925,13 +935,20 @@ func renderSetup(rng *rand.Rand, c *Case, opt Options) string {
 			sb.WriteString("\t" + m.signature() + "\n")
 		}
 		sb.WriteString("}\n")
+		if len(it.Embeds) > 0 {
+			fmt.Fprintf(&sb, "\ntype emb%s interface {\n", it.Name)
+			for _, m := range it.Embeds {
+				sb.WriteString("\t" + m.signature() + "\n")
+			}
+			sb.WriteString("}\n")
+		}
 		if opt.ExtraDecls && rng.Intn(3) == 0 {
 			fmt.Fprintf(&sb, "\n// helper%d stays.\nfunc helper%d() int {\n\t// inner comment\n\treturn %d\n}\n", oi, oi, oi)
 			c.Features["decl-between"]++
 		}
 	}
 	if opt.ExtraDecls && rng.Intn(3) == 0 {
-		sb.WriteString("\n// Plain is not a converter.\ntype Plain interface {\n\t// Do does.\n\tDo(x int) string\n}\n")
+		sb.WriteString("\n// Plain is not a converter.\n// :since: v1.2\ntype Plain interface {\n\t// Do does.\n\t// :deprecated\n\tDo(x int) string\n}\n")
 		c.Features["unmarked-interface"]++
 	}
 	return sb.String()
@@ -1035,6 +1052,34 @@ func GenerateSelection(seed int64, index int, opt Options) *Case {
 	if rng.Intn(2) == 0 {
 		c.Files["pk/sibling.go"] = "//go:build convergen\n\npackage pk\n\n// :convergen\ntype SiblingMarked interface {\n\tSibConv(*Leaf) *Leaf2\n}\n"
 		c.Features["sibling-marked-interface"]++
+	}
+	if c.Interfaces[0].Name != "Convergen" && rng.Intn(2) == 0 {
+		// a sibling file whose NAME ends with the input's name, declaring an interface called Convergen
+		c.Files["pk/legacy_setup.go"] = "//go:build convergen\n\npackage pk\n\ntype Convergen interface {\n\tLegacyConv(*Leaf) *Leaf2\n}\n"
+		c.Features["sibling-named-like-input-with-Convergen"]++
+	}
+	if len(c.Interfaces) >= 2 && rng.Intn(2) == 0 {
+		// the same method names under different receivers in two interfaces, same receiver identifier
+		a, b := &c.Interfaces[0], &c.Interfaces[1]
+		n := len(a.Methods)
+		if len(b.Methods) < n {
+			n = len(b.Methods)
+		}
+		for k := 0; k < n; k++ {
+			b.Methods[k].Name = a.Methods[k].Name
+			for _, mm := range []*Method{&a.Methods[k], &b.Methods[k]} {
+				mm.RawSig = ""
+				var keep []string
+				for _, nn := range mm.Notations {
+					if !strings.HasPrefix(nn, ":recv") && !strings.HasPrefix(nn, ":reverse") {
+						keep = append(keep, nn)
+					}
+				}
+				mm.Notations = append(keep, ":recv m")
+			}
+		}
+		c.Features["same-method-names-different-receivers"]++
+		c.Files[c.SetupPath] = renderSetup(rng, c, opt)
 	}
 	if rng.Intn(6) == 0 {
 		// no converter interface in the input file, but one named Convergen in a sibling file
